@@ -16,4 +16,4 @@ globals().update(make(
     lambda mon, case: any(r[3] != mon.m.specs[s]['val'] for d in mon.devs if d.name.startswith('K')
                           for r in mon.recv_cb.get(d.name, []) for s in [next(x['n'] for x in case['devs'] if x['k'] == 'S')])
     and any(d.get('valadd') or d.get('rvaladd') for d in case['devs'] + [x for g in case['groups'] for x in g['devs']]),
-    None, quick=(400, 4), thorough=(2000, 16)))
+    None, quick=(800, 4), thorough=(2000, 16)))
